@@ -379,7 +379,7 @@ def main(ctx):
                 ctx.sample({'leg': 'R', 'case': cs, 'expected': res})
         ctx.exhaustive = not quick
     events = []
-    for i in range(1600 if quick else 15000):
+    for i in range(3200 if quick else 30000):
         if ctx.rng.random() < 0.08:
             # hierarchies whose leaves are auto-integer (map-less) indices: a label beyond a leaf's length is absent THERE
             rows = auto_rows(ctx.rng)
